@@ -82,6 +82,8 @@ func prErrName(err error) string {
 
 type prClient struct {
 	c        *sched.Client
+	idx      int  // client index (X spec process idx+1)
+	xid      int  // id of the call in flight in the X spec: (idx+1)*100 + program index+1
 	inflight int  // call id in flight, 0 if none
 	await    bool // the call in flight is an await
 	op       prOp
@@ -182,12 +184,24 @@ func (d *prDriver) blockedIDs() []int {
 	return out
 }
 
+// blockedXIDs: the same set under the X spec's ids (X-level trace validation).
+func (d *prDriver) blockedXIDs() []int {
+	out := []int{}
+	for _, c := range d.cl {
+		if c.inflight != 0 && c.await && d.x.Blocked(c.c) {
+			out = append(out, c.xid)
+		}
+	}
+	sort.Ints(out)
+	return out
+}
+
 // guard runs one library call; a panic is logged as the outcome of call id.
 func (d *prDriver) guard(c *prClient, id int, f func()) (ok bool) {
 	defer func() {
 		if r := recover(); r != nil {
 			c.inflight = 0
-			d.x.Log(trace.E{"ev": "panic", "id": id, "msg": fmt.Sprint(r), "actor": c.c.Name})
+			d.x.Log(trace.E{"ev": "panic", "id": id, "xid": c.xid, "msg": fmt.Sprint(r), "actor": c.c.Name})
 			ok = false
 		}
 	}()
@@ -195,11 +209,13 @@ func (d *prDriver) guard(c *prClient, id int, f func()) (ok bool) {
 	return true
 }
 
-func (d *prDriver) opFunc(c *prClient, op prOp) sched.Op {
+func (d *prDriver) opFunc(c *prClient, pi int, op prOp) sched.Op {
 	x := d.x
 	label := "call:" + c.c.Name
+	xid := (c.idx+1)*100 + pi + 1
 	call := func(id int) trace.E {
-		return trace.E{"ev": "call", "id": id, "op": op.Op, "q": op.Q, "v": op.V, "e": op.E, "kind": op.Kind, "actor": c.c.Name}
+		c.xid = xid
+		return trace.E{"ev": "call", "id": id, "xid": xid, "op": op.Op, "q": op.Q, "v": op.V, "e": op.E, "kind": op.Kind, "actor": c.c.Name}
 	}
 	switch op.Op {
 	case "set":
@@ -212,7 +228,7 @@ func (d *prDriver) opFunc(c *prClient, op prOp) sched.Op {
 				return
 			}
 			c.inflight = 0
-			x.Log(trace.E{"ev": "ret", "id": id, "op": "set", "ok": ok, "actor": c.c.Name})
+			x.Log(trace.E{"ev": "ret", "id": id, "xid": xid, "op": "set", "ok": ok, "actor": c.c.Name})
 		}}
 	case "cset":
 		return sched.Op{Label: label, Do: func() {
@@ -224,7 +240,7 @@ func (d *prDriver) opFunc(c *prClient, op prOp) sched.Op {
 				return
 			}
 			c.inflight = 0
-			x.Log(trace.E{"ev": "ret", "id": id, "op": "cset", "ok": ok, "actor": c.c.Name})
+			x.Log(trace.E{"ev": "ret", "id": id, "xid": xid, "op": "cset", "ok": ok, "actor": c.c.Name})
 		}}
 	case "setp":
 		return sched.Op{Label: label, Do: func() {
@@ -239,7 +255,7 @@ func (d *prDriver) opFunc(c *prClient, op prOp) sched.Op {
 				return
 			}
 			c.inflight = 0
-			x.Log(trace.E{"ev": "ret", "id": id, "op": "setp", "ok": true, "actor": c.c.Name})
+			x.Log(trace.E{"ev": "ret", "id": id, "xid": xid, "op": "setp", "ok": true, "actor": c.c.Name})
 		}}
 	case "await":
 		return sched.Op{Label: label, Do: func() {
@@ -273,7 +289,7 @@ func (d *prDriver) opFunc(c *prClient, op prOp) sched.Op {
 				return
 			}
 			c.inflight = 0
-			x.Log(trace.E{"ev": "ret", "id": id, "op": "await", "v": v, "e": es, "actor": c.c.Name})
+			x.Log(trace.E{"ev": "ret", "id": id, "xid": xid, "op": "await", "v": v, "e": es, "actor": c.c.Name})
 		}}
 	}
 	panic("bad op " + op.Op)
@@ -281,13 +297,13 @@ func (d *prDriver) opFunc(c *prClient, op prOp) sched.Op {
 
 func (d *prDriver) doCancel(c *prClient) {
 	c.canc = true
-	d.x.Log(trace.E{"ev": "cancel", "id": c.inflight})
+	d.x.Log(trace.E{"ev": "cancel", "id": c.inflight, "xid": c.xid})
 	c.cancel()
 }
 
 func (d *prDriver) doFire(c *prClient) {
 	c.fired = true
-	d.x.Log(trace.E{"ev": "fire", "id": c.inflight, "how": c.op.F})
+	d.x.Log(trace.E{"ev": "fire", "id": c.inflight, "xid": c.xid, "how": c.op.F})
 	switch c.op.Kind + ":" + c.op.F {
 	case "errch:val":
 		c.errCh <- prErrX
@@ -334,9 +350,9 @@ func (d *prDriver) Run(x *sched.Exec, raw json.RawMessage) json.RawMessage {
 		x.Policy = nil
 	}
 	for i, prog := range sc.Clients {
-		c := &prClient{c: x.NewClient(fmt.Sprintf("c%d", i+1))}
-		for _, op := range prog {
-			c.c.Prog = append(c.c.Prog, d.opFunc(c, op))
+		c := &prClient{c: x.NewClient(fmt.Sprintf("c%d", i+1)), idx: i}
+		for pi, op := range prog {
+			c.c.Prog = append(c.c.Prog, d.opFunc(c, pi, op))
 		}
 		d.cl = append(d.cl, c)
 	}
@@ -367,7 +383,7 @@ func (d *prDriver) Run(x *sched.Exec, raw json.RawMessage) json.RawMessage {
 		if key == d.lastQ {
 			return
 		}
-		x.Log(trace.E{"ev": "quiet", "blk": blk})
+		x.Log(trace.E{"ev": "quiet", "blk": blk, "xblk": d.blockedXIDs()})
 		d.lastQ = fmt.Sprint(blk, x.T.Seq())
 	}
 	x.Loop(moves, observe, 90+len(x.Sched))
@@ -375,6 +391,9 @@ func (d *prDriver) Run(x *sched.Exec, raw json.RawMessage) json.RawMessage {
 	// teardown: cancel every await still in flight (a spinning awaiter must see a cancelled
 	// context before the hooks become pass-through, or it would spin for real), then let
 	// everything run freely
+	if x.LogSteps {
+		x.Log(trace.E{"ev": "teardown"}) // X-level trace validation stops here
+	}
 	for _, c := range d.cl {
 		if c.inflight != 0 && c.await && !c.canc {
 			d.doCancel(c)
